@@ -98,6 +98,17 @@ pub fn check(h: &FHistory, ex: &FExec, obs: &mut Obs) -> Vec<Violation> {
                             }
                         }
                         obs.count("sample_bytes_resolved", fs.size as u64);
+                        // "not altered": the sample keeps its presentation time relative to its
+                        // decode time and its sync flag (offsets beyond 32 bits are C16's zone)
+                        let want_cts = q.0 as i128 - q.1 as i128;
+                        if want_cts.abs() <= i32::MAX as i128 && fs.cts_off as i128 != want_cts {
+                            out.push(v("sample-altered|composition-offset".into(), format!("op #{}: sample {} composition offset {} but the accepted write had pts - dts = {}", i, k + 1, fs.cts_off, want_cts)));
+                            break;
+                        }
+                        if (fs.flags & 0x0001_0000 != 0) == q.3 {
+                            out.push(v("sample-altered|sync-flag".into(), format!("op #{}: sample {} non-sync bit {} but the accepted write had sync {}", i, k + 1, fs.flags & 0x0001_0000 != 0, q.3)));
+                            break;
+                        }
                     }
                     // all samples inside the mdat payload, tiling it
                     if let Some((ps, pl)) = frag.mdat {
